@@ -14,16 +14,16 @@ import (
 
 // TxSpec describes one generated transaction.
 type TxSpec struct {
-	From   int             `json:"from_eoa"`
-	To     *common.Address `json:"to"`
-	Nonce  uint64          `json:"nonce"`
-	Value  *big.Int        `json:"value"`
-	Gas    uint64          `json:"gas"`
-	Price  *big.Int        `json:"price"`
-	Data   []byte          `json:"-"`
-	DataHex string         `json:"data"`
-	BadSig string          `json:"bad_sig,omitempty"` // "", "other-fork-signer", "other-chain-id"
-	Class  string          `json:"class"`             // what the generator aimed at
+	From    int             `json:"from_eoa"`
+	To      *common.Address `json:"to"`
+	Nonce   uint64          `json:"nonce"`
+	Value   *big.Int        `json:"value"`
+	Gas     uint64          `json:"gas"`
+	Price   *big.Int        `json:"price"`
+	Data    []byte          `json:"-"`
+	DataHex string          `json:"data"`
+	BadSig  string          `json:"bad_sig,omitempty"` // "", "other-fork-signer", "other-chain-id"
+	Class   string          `json:"class"`             // what the generator aimed at
 }
 
 // IntrinsicGas is the property's intrinsic gas rule with this code base's
